@@ -15,13 +15,14 @@ def Chunk.encloses (c p : Chunk) : Prop := c.b ≤ p.b ∧ p.e ≤ c.e
 /-- some chunk of the list encloses `p` -/
 def coveredBy (cs : List Chunk) (p : Chunk) : Prop := ∃ c, c ∈ cs ∧ c.encloses p
 
-/-- positions in the indexable range, a non-empty reference interval for a placed record, a
-non-negative reference id, and a non-empty chunk at a non-negative offset -/
+/-- positions in the indexable range, `0 ≤ start ≤ end` for a placed record (`start = end` occurs: a mapped
+read whose CIGAR consumes no reference, e.g. `5I` or `10S`, has `End() = Pos`), a non-negative reference id,
+and a non-empty chunk at a non-negative offset -/
 structure RecOK (r : Rec) : Prop where
   vstart : validPos r.start = true
   vstop : validPos r.stop = true
   rid : r.placed = true → 0 ≤ r.rid
-  pos : r.placed = true → 0 ≤ r.start ∧ r.start < r.stop
+  pos : r.placed = true → 0 ≤ r.start ∧ r.start ≤ r.stop
   cb : 0 ≤ r.chunk.b
   ce : r.chunk.b < r.chunk.e
 
@@ -37,7 +38,7 @@ structure SortedInput (recs : List Rec) : Prop where
 
 theorem recOK_iff (r : Rec) : RecOK r ↔
     (validPos r.start = true ∧ validPos r.stop = true ∧ (r.placed = true → 0 ≤ r.rid) ∧
-      (r.placed = true → 0 ≤ r.start ∧ r.start < r.stop) ∧ 0 ≤ r.chunk.b ∧ r.chunk.b < r.chunk.e) :=
+      (r.placed = true → 0 ≤ r.start ∧ r.start ≤ r.stop) ∧ 0 ≤ r.chunk.b ∧ r.chunk.b < r.chunk.e) :=
   ⟨fun h => ⟨h.vstart, h.vstop, h.rid, h.pos, h.cb, h.ce⟩,
    fun ⟨a, b, c, d, e, f⟩ => ⟨a, b, c, d, e, f⟩⟩
 
